@@ -29,7 +29,12 @@ var c14Funcs = []string{
 // safetySpec: receiver non-nil, otherwise no assumption; contract clauses (requires/loop specs) are used if present.
 func safetySpec(w *core.World, key string) *sym.FnSpec {
 	if fc := w.Contracts.ByKey[key]; fc != nil {
-		return fc.Spec()
+		sp := fc.Spec()
+		if len(fc.LenCases) > 0 {
+			// functional clauses of contracts with length cases are decided by the property that owns them
+			sp.Post = nil
+		}
+		return sp
 	}
 	fn := w.Funcs[key]
 	return &sym.FnSpec{Requires: func(fx *sym.FnExec, st *sym.State, args []sym.Value) {
